@@ -379,12 +379,15 @@ func c11(c *core.Ctx, r *core.Report) {
 	}
 }
 
-func c11Writers(c *core.Ctx, r *core.Report) {
+func c11Writers(c *core.Ctx, r *core.Report) { writerRules(c, r, "C11.R4") }
+
+// writerRules: the frozen table of reflect writers reachable from App.Run, reported under rule.
+func writerRules(c *core.Ctx, r *core.Report, rule string) {
 	ro := c.Roles()
 	appT := c.Named("app", "App")
 	run := c.DeclaredMethod(appT, "Run")
 	if run == nil {
-		r.Undecided("C11.R4", "role:App.Run", "", "App.Run not found")
+		r.Undecided(rule, "role:App.Run", "", "App.Run not found")
 		return
 	}
 	ps := builtinProcessors(c)
@@ -419,7 +422,7 @@ func c11Writers(c *core.Ctx, r *core.Report) {
 				}
 			}
 			if !ok {
-				r.Fail("C11.R4", cons, c.Pos(ci.Pos()), "a reflect write reachable from App.Run outside the frozen writer table: the container could modify something it was not asked to")
+				r.Fail(rule, cons, c.Pos(ci.Pos()), "a reflect write reachable from App.Run outside the frozen writer table: the container could modify something it was not asked to")
 				continue
 			}
 			// target: a load of Base.Value / the function's reflect.Value parameter / an Index of it
@@ -434,12 +437,12 @@ func c11Writers(c *core.Ctx, r *core.Report) {
 			if p, isP := tgt.(*ssa.Parameter); isP && p.Type().String() == "reflect.Value" {
 				okT = true
 			}
-			r.Check(okT, "C11.R4", cons, c.Pos(ci.Pos()), "frozen writer ("+why+") writes through the property's own Value")
+			r.Check(okT, rule, cons, c.Pos(ci.Pos()), "frozen writer ("+why+") writes through the property's own Value")
 		}
 	}
 	sort.Strings(names)
 	r.Count("reflect_writers_reachable_from_Run", n)
-	r.Floor("C11.R4", "reflect writers reachable from App.Run", n, 5)
+	r.Floor(rule, "reflect writers reachable from App.Run", n, 5)
 	// SetValue's callers hand it the property's Value
 	if sv := c.Func("util/reflectx", "SetValue"); sv != nil {
 		for _, cs := range c.CallSites(func(com *ssa.CallCommon) bool { return core.IsCallTo(com, sv) }) {
@@ -448,7 +451,7 @@ func c11Writers(c *core.Ctx, r *core.Report) {
 			}
 			a0 := core.Norm(cs.Common().Args[0])
 			_, isParam := a0.(*ssa.Parameter)
-			r.Check(baseFieldLoad(c, a0, "Value") || propFieldLoad(c, a0, "Value") || isParam, "C11.R4", "SetValue-target@"+core.FnName(cs.Parent()), c.Pos(cs.Pos()), "SetValue is handed the property's own Value")
+			r.Check(baseFieldLoad(c, a0, "Value") || propFieldLoad(c, a0, "Value") || isParam, rule, "SetValue-target@"+core.FnName(cs.Parent()), c.Pos(cs.Pos()), "SetValue is handed the property's own Value")
 		}
 	}
 }
